@@ -173,7 +173,7 @@ impl Prop for C02 {
         (tier == Tier::Thorough).then(|| "RK decoding: all 2^32 RK words x 3 style classes through the rk_num hook".to_string())
     }
     fn mandatory(&self, _t: Tier) -> Vec<String> {
-        ["rk_sweep", "rec:num:NUMBER", "rec:num:RK:RkInt", "rec:num:RK:RkIntDiv100", "rec:num:RK:RkFloat", "rec:num:RK:RkFloatDiv100", "rec:MULRK", "rec:str:LABELSST", "rec:str:LABEL", "rec:bool", "rec:error", "rec:blank", "rec:formula:num", "rec:formula:string", "rec:formula:bool", "rec:formula:error", "shrfmla_between_formula_and_string", "negative_rk_int", "mulrk_col0", "mulrk_col255", "dims:0", "dims:1", "dims:2"]
+        ["rk_sweep", "rec:num:NUMBER", "rec:num:RK:RkInt", "rec:num:RK:RkIntDiv100", "rec:num:RK:RkFloat", "rec:num:RK:RkFloatDiv100", "rec:MULRK", "rec:str:LABELSST", "rec:str:LABEL", "rec:bool", "rec:error", "rec:blank", "rec:formula:num", "rec:formula:string", "rec:formula:bool", "rec:formula:error", "shrfmla_between_formula_and_string", "sst_index>=65536", "negative_rk_int", "mulrk_col0", "mulrk_col255", "dims:0", "dims:1", "dims:2"]
             .iter().map(|s| s.to_string()).collect()
     }
     fn run_unit(&self, ctx: &Ctx, unit: u64, out: &mut UnitResult) {
@@ -221,7 +221,15 @@ impl Prop for C02 {
                 }
             }
             for k in 0..ctx.tier.pick(3, 6) {
-                let bc = if k == 0 { BiffChoices::default() } else { BiffChoices::random(&mut rng) };
+                let mut bc = if k == 0 { BiffChoices::default() } else { BiffChoices::random(&mut rng) };
+                let n_str = book.sheets.iter().flat_map(|s| s.cells.values()).filter(|c| matches!(c.val, Val::Str(_)) && c.formula.is_none()).count();
+                if unit == SWEEP_UNITS && k == 1 && i < 6 && n_str >= 3 {
+                    // a shared string table of more than 65536 items: the LABELSST indices of this
+                    // workbook straddle the 16-bit boundary
+                    bc.str_form = crate::enc::biff8::StrForm::LabelSst;
+                    bc.sst_pad = 65_536 - n_str / 2;
+                    out.feat("sst_index>=65536");
+                }
                 out.feat(&format!("dims:{}", bc.dims));
                 let (bytes, enc) = crate::enc::xls_file(&book, &bc, &BiffExtra::default(), &CfbChoices::default(), &[], &mut rng);
                 for (kf, n) in &enc.counts {
